@@ -783,7 +783,10 @@ func (r *reader) read(src []byte) {
 			}
 		}
 		if r.one && 0 < len(r.code) {
-			if b == ')' {
+			// Step past the byte that completed the object, a closing
+			// parenthesis or the closing quote of a string or |symbol|. A
+			// token is ended by a byte that is not part of it.
+			if b == ')' || ((b == '"' || b == '|') && r.mode == valueMode) {
 				r.pos++
 			}
 			return
